@@ -84,18 +84,27 @@ def oracle(itype, s):
             return None
         return (y, w)
     if itype == 'time':
+        # HTML "valid time string": HH:MM, optionally :SS, optionally .s / .ss / .sss
         parts = s.split(':')
-        if len(parts) != 2:
+        if len(parts) not in (2, 3):
             return None
-        h, m = parts
+        h, m = parts[0], parts[1]
         if not (ascii_digits(h) and len(h) == 2 and ascii_digits(m) and len(m) == 2):
             return None
         h, m = int(h), int(m)
         if h > 23 or m > 59:
             return None
-        return (h, m)
+        if len(parts) == 2:
+            return (h, m)
+        sec, dot, frac = parts[2].partition('.')
+        if not (ascii_digits(sec) and len(sec) == 2 and int(sec) <= 59):
+            return None
+        if dot and not (ascii_digits(frac) and 1 <= len(frac) <= 3):
+            return None
+        return (h, m, int(sec), int((frac + '00')[:3]) if dot else 0)
     if itype == 'datetime-local':
-        parts = s.split('T')
+        # HTML "valid local date and time string": date, then 'T' or one space, then time
+        parts = s.split('T') if 'T' in s else s.split(' ')
         if len(parts) != 2:
             return None
         d = oracle('date', parts[0])
@@ -128,8 +137,23 @@ def is_known_week53(itype, s, py):
     return w == 53 and iso_weeks(y) == 52 and dec31_weekday(y) <= 3
 
 
+KF_SECONDS = 'time-with-seconds-or-space-separator'
+
+
+def is_known_seconds(itype, s, py, exp):
+    """The recorded finding: HTML also allows ':SS' / ':SS.sss' in time strings and a space instead of 'T' in local
+    date-time strings; the library treats those strings as invalid (never as a different value)."""
+    if itype not in ('time', 'datetime-local') or py is not None or exp is None:
+        return False
+    t = s.split('T')[-1].split(' ')[-1]
+    return t.count(':') == 2 or (itype == 'datetime-local' and 'T' not in s and ' ' in s)
+
+
 def gen_strings(rng, quick):
-    out = []
+    out = [('time', x) for x in ('10:00:00', '10:00:30', '23:59:59', '10:00:60', '10:00:00.5', '10:00:00.123', '10:00:00.1234',
+                                 '10:00:', '10:00:0', '24:00:00', '10:60:00')]
+    out += [('datetime-local', x) for x in ('2020-01-01T10:00:00', '2020-01-01 10:00', '2020-01-01 10:00:30.25', '2020-01-01  10:00',
+                                             '2020-02-30 10:00', '2020-01-01T10:00:61')]
     years = [1, 2, 3, 4, 5, 99, 100, 400, 999, 1000, 1001, 1582, 1600, 1700, 1900, 1979, 1980, 1999, 2000, 2004, 2015,
              2019, 2020, 2026, 2400, 9998, 9999, 10000, 10001, 12345, 100000, 0]
     years += list(range(1990, 2040) if quick else range(1, 4200))
@@ -298,6 +322,7 @@ def run(chk):
     quick = chk.tier == 'quick'
     strings = gen_strings(rng, quick)
     py_bad, known_hits, pyv = [], 0, []
+    seconds_hits = 0
     valid = set()
     lines = []
     for ty, s in strings:
@@ -307,11 +332,20 @@ def run(chk):
         if exp is not None:
             valid.add((ty, s))
         if py != exp:
-            if is_known_week53(ty, s, py):
+            if is_known_seconds(ty, s, py, exp):
+                seconds_hits += 1
+            elif is_known_week53(ty, s, py):
                 known_hits += 1
             else:
                 py_bad.append({'type': ty, 'value': s, 'py': py, 'oracle': exp})
         lines.append(f'(3 {enc.s(ty)} {enc.s(s)})')
+    if seconds_hits:
+        kf = chk.is_known(KF_SECONDS)
+        if kf:
+            chk.known_finding(KF_SECONDS, kf['text'] + f' [{seconds_hits} inputs of this run]')
+        else:
+            py_bad.append({'what': 'valid HTML time / local date-time strings with seconds or a space separator are rejected',
+                           'count': seconds_hits})
     if known_hits:
         kf = chk.is_known(KF_KEY)
         if kf:
@@ -393,7 +427,7 @@ def replay(chk, path):
         py = cm.Inputs.parse_value(data['type'], data['value'])
         exp = oracle(data['type'], data['value'])
         print(json.dumps({'py': py, 'oracle': exp}))
-        if py != exp and not is_known_week53(data['type'], data['value'], py):
+        if py != exp and not is_known_week53(data['type'], data['value'], py) and not is_known_seconds(data['type'], data['value'], py, exp):
             print(f'VIOLATION property={PID} replay={path}')
             return 1
         return 0
